@@ -98,7 +98,7 @@ def run(ctx):
         "traces_validated_against_impl": st["configs"] + trace_q,
         "configurations_generated": len(cfgs), "configurations_replayed": len(sel),
         "live_servers": st["walks"], "configuration_visits": st["configs"],
-        "reconfigurations_on_live_servers": st["reconfigurations"], "configurations_with_cache": cached,
+        "reconfigurations_on_live_servers": st["reconfigurations"], "failed_rebuilds_injected": st["faults"], "configurations_with_cache": cached,
         "entries_replaced_with_foreign_owner": foreign,
         "evaluations": st["evals"] + trace_q,
         "answer_sections_in_universe": len(hdr["answers"]),
